@@ -216,6 +216,50 @@ def local_int_enums():
     return res
 
 
+@functools.lru_cache(maxsize=None)
+def field_schemas():
+    """Every attrs-decorated FieldValueMultiple subclass: (class name, separator, has extension attribute,
+    [(attribute, canonical name, mode, required)]) with mode 0 = exact, 1 = case-insensitive, 2 = any name, as observed by
+    calling the component class's own _check_name."""
+    import attr
+    from cryptoparser.common.exception import InvalidType
+    from cryptoparser.common.field import FieldValueMultiple
+    all_modules()
+    res = []
+    for cls in sorted(all_subclasses(FieldValueMultiple), key=lambda c: c.__name__):
+        if not attr.has(cls):
+            continue
+        try:
+            sep = cls._get_header_value_list_class().get_separator()
+        except NotImplementedError:
+            continue
+        fields = attr.fields_dict(cls)
+        comps = cls._get_attr_to_validator_type_dict(fields)
+        rows = []
+        has_ext = False
+        for name, comp in comps.items():
+            if fields[name].metadata.get('extension', False):
+                has_ext = True
+                continue
+            canon = comp.get_canonical_name()
+
+            def accepts(n, comp=comp):
+                try:
+                    comp._check_name(n)
+                    return True
+                except InvalidType:
+                    return False
+            if accepts('zz' + canon + 'zz'):
+                mode = 2
+            elif all(accepts(v) for v in (canon, canon.swapcase(), canon.upper(), canon.lower())):
+                mode = 1
+            else:
+                mode = 0
+            rows.append((name, canon, mode, fields[name].default is attr.NOTHING))
+        res.append((cls.__name__, sep, has_ext, rows))
+    return res
+
+
 def emit_tables():
     common.use_repo()
     out = {}
@@ -300,6 +344,16 @@ def emit_tables():
     lines.append('   3 = one mutable object shared by all instances, 4 = a validator object used as default, 5 = immutable object *)')
     lines.append('Definition default_sites : list (string * string * Z) := [')
     lines.append(';\n'.join('  (%s, %s, %d)' % (coq_string(c), coq_string(f), k) for c, f, k in sites))
+    lines.append('].')
+    schemas = field_schemas()
+    out['field_schemas'] = [[c, sep, ext, [list(r) for r in rows]] for c, sep, ext, rows in schemas]
+    lines.append('(* FieldValueMultiple subclasses: (class, (separator hex, has extension attribute, [(canonical name hex, mode, required)]))')
+    lines.append('   with mode 0 = exact, 1 = case-insensitive, 2 = any name, observed from the component class\'s _check_name *)')
+    lines.append('Definition field_schemas : list (string * (string * bool * list (string * Z * bool))) := [')
+    lines.append(';\n'.join('  (%s, (%s, %s, [%s]))' % (
+        coq_string(c), coq_string(sep.encode('ascii').hex()), 'true' if ext else 'false',
+        '; '.join('(%s, %d, %s)' % (coq_string(canon.encode('ascii').hex()), mode, 'true' if req else 'false')
+                  for _, canon, mode, req in rows)) for c, sep, ext, rows in schemas))
     lines.append('].')
     lines.append('')
     lines.append('Definition flag_tables : list (string * list Z) := [')
